@@ -333,6 +333,7 @@ package sod
 //@ pure
 
 //@ func (*objIndex).satisfyAll
+//@ dead return 3 "every indexed field is a field of the object type (wfFieldOf)"
 //@ serves C03 C06 C07 C19
 //@ requires [wf] wfIndex(in) && o != nil && dyntype(o) == in.otype
 //@ ghost bad string := fn
@@ -348,6 +349,10 @@ package sod
 //@ allocates Constraints.Index, Constraints.Lower, Constraints.Unique, Constraints.Upper
 
 //@ func (*objIndex).insertOrUpdate
+//@ dead return 2 "after satisfyAll succeeded no field update can fail: the index is never left half updated (C06)"
+//@ dead return 3 "satisfyAll already resolved every indexed field of the object"
+//@ dead return 4 "after satisfyAll succeeded no field insert can fail (C06)"
+//@ dead return 5 "satisfyAll already resolved every indexed field of the object"
 //@ serves C01 C02 C03 C06 C07 C19 C20
 //@ requires [wf] wfIndex(in) && o != nil && dyntype(o) == in.otype && o.uuid != ""
 //@ assume [id-room] in.i < 18446744073709551615
@@ -387,6 +392,7 @@ package sod
 //@ loop 2 invariant [sep] sepFields(in)
 //@ modifies objIndex.i@in, objIndex.ver@in, MapDom[string,uint64]@in.uuids, MapVal[string,uint64]@in.uuids, MapCard[string,uint64]@in.uuids, MapDom[uint64,string]@in.ObjectIds, MapVal[uint64,string]@in.ObjectIds, MapCard[uint64,string]@in.ObjectIds, fieldIndex.Index, fieldIndex.pos, MapDom[uint64,*indexedField], MapVal[uint64,*indexedField], MapCard[uint64,*indexedField], Elem[*indexedField]
 //@ allocates indexedField.Value, indexedField.ObjectId, Elem[interface{}]
+//@ allocates Constraints.Index, Constraints.Lower, Constraints.Unique, Constraints.Upper
 
 //@ func (*objIndex).deleteByUUID
 //@ serves C01 C02 C03 C11 C19 C20
@@ -621,6 +627,7 @@ package sod
 //@ ensures [C18 opath] path == opathf(cdirf(db.root, itemOf(dyntype(of))), of.uuid, s.Extension, s.Compress)
 //@ pure
 //@ allocates Elem[string]
+//@ allocates Elem[interface{}]
 
 // ---- file helpers: contracts over the ghost file system. Bodies use os/io/gzip/json; their
 // ---- contracts are assumed here (trusted) and listed in the evidence.
@@ -709,6 +716,7 @@ package sod
 //@ ensures [C01 exist.others] db.schemas == old(db.schemas) && forallk(t, string, imp(t != stypeOf(dyntype(o)), has(db.schemas, t) == old(has(db.schemas, t)) && db.schemas[t] == old(db.schemas[t]))) && imp(old(has(db.schemas, stypeOf(dyntype(o)))), has(db.schemas, stypeOf(dyntype(o))) && db.schemas[stypeOf(dyntype(o))] == old(db.schemas[stypeOf(dyntype(o))]))
 //@ modifies MapDom[string,*Schema]@db.schemas, MapVal[string,*Schema]@db.schemas, MapCard[string,*Schema]@db.schemas, Async.routineStarted
 //@ allocates Schema.db, Schema.object, Schema.transformers, Schema.Fields, Schema.Extension, Schema.Compress, Schema.Cache, Schema.AsyncWrites, Schema.ObjectIndex, Schema.coherent, Async.routineStarted, Async.Enable, Async.Threshold, Async.Timeout, objIndex.i, objIndex.uuids, objIndex.Fields, objIndex.ObjectIds, objIndex.otype, objIndex.ver, MapDom[string,uint64], MapVal[string,uint64], MapCard[string,uint64], MapDom[uint64,string], MapVal[uint64,string], MapCard[uint64,string], MapDom[string,*fieldIndex], MapVal[string,*fieldIndex], MapCard[string,*fieldIndex], fieldIndex.Name, fieldIndex.Cast, fieldIndex.Constraints, fieldIndex.Index, fieldIndex.objectIds, fieldIndex.nameSplit, fieldIndex.pos, MapDom[uint64,*indexedField], MapVal[uint64,*indexedField], MapCard[uint64,*indexedField], Elem[*indexedField], indexedField.Value, indexedField.ObjectId, Elem[string]
+//@ allocates Elem[interface{}]
 
 //@ func (*DB).get
 //@ serves C01 C08 C09 C10 C12 C14
@@ -730,6 +738,7 @@ package sod
 //@ ensures [C01 get.others] db.schemas == old(db.schemas) && forallk(t, string, imp(t != T, has(db.schemas, t) == old(has(db.schemas, t)) && db.schemas[t] == old(db.schemas[t]))) && imp(old(has(db.schemas, T)), has(db.schemas, T) && db.schemas[T] == old(db.schemas[T]))
 //@ modifies MapDom[string,*Schema]@db.schemas, MapVal[string,*Schema]@db.schemas, MapCard[string,*Schema]@db.schemas, Async.routineStarted, Object.content@in, MapDom[string,*objectMap]@db.cache.m, MapVal[string,*objectMap]@db.cache.m, MapCard[string,*objectMap]@db.cache.m, MapDom[string,Object], MapVal[string,Object], MapCard[string,Object]
 //@ allocates Object.content, Object.uuid, objectMap.m, objectMap.RWMutex, Schema.db, Schema.object, Schema.transformers, Schema.Fields, Schema.Extension, Schema.Compress, Schema.Cache, Schema.AsyncWrites, Schema.ObjectIndex, Schema.coherent, Async.routineStarted, Async.Enable, Async.Threshold, Async.Timeout, objIndex.i, objIndex.uuids, objIndex.Fields, objIndex.ObjectIds, objIndex.otype, objIndex.ver, MapDom[string,uint64], MapVal[string,uint64], MapCard[string,uint64], MapDom[uint64,string], MapVal[uint64,string], MapCard[uint64,string], MapDom[string,*fieldIndex], MapVal[string,*fieldIndex], MapCard[string,*fieldIndex], fieldIndex.Name, fieldIndex.Cast, fieldIndex.Constraints, fieldIndex.Index, fieldIndex.objectIds, fieldIndex.nameSplit, fieldIndex.pos, MapDom[uint64,*indexedField], MapVal[uint64,*indexedField], MapCard[uint64,*indexedField], Elem[*indexedField], indexedField.Value, indexedField.ObjectId, Elem[string]
+//@ allocates Elem[interface{}]
 
 // ---- Schema wrappers of the object index (same contracts, stated on s.ObjectIndex) ----
 
@@ -754,6 +763,7 @@ package sod
 //@ ensures [C07 iou.footprint] s.ObjectIndex.base == old(s.ObjectIndex.base) && preservedBelow(s.ObjectIndex.base, objIndex.i, objIndex.ver, MapDom[string,uint64], MapVal[string,uint64], MapCard[string,uint64], MapDom[uint64,string], MapVal[uint64,string], MapCard[uint64,string], fieldIndex.Index, fieldIndex.pos, MapDom[uint64,*indexedField], MapVal[uint64,*indexedField], MapCard[uint64,*indexedField], Elem[*indexedField])
 //@ modifies objIndex.i@s.ObjectIndex, objIndex.ver@s.ObjectIndex, MapDom[string,uint64]@s.ObjectIndex.uuids, MapVal[string,uint64]@s.ObjectIndex.uuids, MapCard[string,uint64]@s.ObjectIndex.uuids, MapDom[uint64,string]@s.ObjectIndex.ObjectIds, MapVal[uint64,string]@s.ObjectIndex.ObjectIds, MapCard[uint64,string]@s.ObjectIndex.ObjectIds, fieldIndex.Index, fieldIndex.pos, MapDom[uint64,*indexedField], MapVal[uint64,*indexedField], MapCard[uint64,*indexedField], Elem[*indexedField]
 //@ allocates indexedField.Value, indexedField.ObjectId, Elem[interface{}]
+//@ allocates Constraints.Index, Constraints.Lower, Constraints.Unique, Constraints.Upper
 
 //@ func (*Schema).unindexByUUID
 //@ serves C01 C02 C03 C11 C19 C20
@@ -800,6 +810,7 @@ package sod
 //@ ensures [C06 wd.fail] imp(err != nil, FSk == old(FSk) && FSc == old(FSc) && isStorage(err))
 //@ modifies Ghost.FSk, Ghost.FSc
 //@ allocates Elem[string]
+//@ allocates Elem[interface{}]
 
 //@ func (*DB).initialize
 //@ serves C01 C06 C07
@@ -822,8 +833,10 @@ package sod
 //@ loop 1 invariant [last] imp(!ok, err == nil && o.uuid != "" && has(db.schemas, T) && imp(db.schemas[T].coherent, !has(db.schemas[T].ObjectIndex.uuids, o.uuid)))
 //@ modifies Object.uuid@o, MapDom[string,*Schema]@db.schemas, MapVal[string,*Schema]@db.schemas, MapCard[string,*Schema]@db.schemas, Async.routineStarted
 //@ allocates Schema.db, Schema.object, Schema.transformers, Schema.Fields, Schema.Extension, Schema.Compress, Schema.Cache, Schema.AsyncWrites, Schema.ObjectIndex, Schema.coherent, Async.routineStarted, Async.Enable, Async.Threshold, Async.Timeout, objIndex.i, objIndex.uuids, objIndex.Fields, objIndex.ObjectIds, objIndex.otype, objIndex.ver, MapDom[string,uint64], MapVal[string,uint64], MapCard[string,uint64], MapDom[uint64,string], MapVal[uint64,string], MapCard[uint64,string], MapDom[string,*fieldIndex], MapVal[string,*fieldIndex], MapCard[string,*fieldIndex], fieldIndex.Name, fieldIndex.Cast, fieldIndex.Constraints, fieldIndex.Index, fieldIndex.objectIds, fieldIndex.nameSplit, fieldIndex.pos, MapDom[uint64,*indexedField], MapVal[uint64,*indexedField], MapCard[uint64,*indexedField], Elem[*indexedField], indexedField.Value, indexedField.ObjectId, Elem[string]
+//@ allocates Elem[interface{}]
 
 //@ func (*DB).saveSchema
+//@ dead return 2 "json.Marshal of a schema does not fail (assumed contract of the codec)"
 //@ serves C01 C04 C05 C10 C17 C18
 //@ requires [wf] db != nil && o != nil && s != nil && s.ObjectIndex != nil && dyntype(o) == s.ObjectIndex.otype
 //@ ensures [C04 save.ok] imp(err == nil && (override || old(FSk[spath(db, s)] != 1 && FSk[spath(db, s)] != 2)), FSk == upd(old(FSk), spath(db, s), 1) && FSc == upd(old(FSc), spath(db, s), s.ObjectIndex.ver))
@@ -882,6 +895,7 @@ package sod
 //@ ensures [C01 iou.table] db.schemas == old(db.schemas) && has(db.schemas, stypeOf(dyntype(o))) && db.schemas[stypeOf(dyntype(o))] == s && s.ObjectIndex == idx && s.coherent && forallk(t, string, has(db.schemas, t) == old(has(db.schemas, t))) && idx.i <= old(idx.i) + 1 && idx.i >= old(idx.i)
 //@ modifies Object.uuid@o, Ghost.FSk, Ghost.FSc, Async.routineStarted, MapDom[string,*Schema]@db.schemas, MapVal[string,*Schema]@db.schemas, MapCard[string,*Schema]@db.schemas, MapDom[string,*objectMap], MapVal[string,*objectMap], MapCard[string,*objectMap], MapDom[string,Object], MapVal[string,Object], MapCard[string,Object], objIndex.i@s.ObjectIndex, objIndex.ver@s.ObjectIndex, MapDom[string,uint64]@s.ObjectIndex.uuids, MapVal[string,uint64]@s.ObjectIndex.uuids, MapCard[string,uint64]@s.ObjectIndex.uuids, MapDom[uint64,string]@s.ObjectIndex.ObjectIds, MapVal[uint64,string]@s.ObjectIndex.ObjectIds, MapCard[uint64,string]@s.ObjectIndex.ObjectIds, fieldIndex.Index, fieldIndex.pos, MapDom[uint64,*indexedField], MapVal[uint64,*indexedField], MapCard[uint64,*indexedField], Elem[*indexedField]
 //@ allocates Elem[uint8], Elem[interface{}], Object.content, Object.uuid, objectMap.m, objectMap.RWMutex, indexedField.Value, indexedField.ObjectId, Schema.db, Schema.object, Schema.transformers, Schema.Fields, Schema.Extension, Schema.Compress, Schema.Cache, Schema.AsyncWrites, Schema.ObjectIndex, Schema.coherent, Async.routineStarted, Async.Enable, Async.Threshold, Async.Timeout, objIndex.i, objIndex.uuids, objIndex.Fields, objIndex.ObjectIds, objIndex.otype, objIndex.ver, MapDom[string,uint64], MapVal[string,uint64], MapCard[string,uint64], MapDom[uint64,string], MapVal[uint64,string], MapCard[uint64,string], MapDom[string,*fieldIndex], MapVal[string,*fieldIndex], MapCard[string,*fieldIndex], fieldIndex.Name, fieldIndex.Cast, fieldIndex.Constraints, fieldIndex.Index, fieldIndex.objectIds, fieldIndex.nameSplit, fieldIndex.pos, MapDom[uint64,*indexedField], MapVal[uint64,*indexedField], MapCard[uint64,*indexedField], Elem[*indexedField], Elem[string]
+//@ allocates Constraints.Index, Constraints.Lower, Constraints.Unique, Constraints.Upper
 
 //@ func (*DB).delete
 //@ serves C01 C05 C08 C09 C10 C11 C12
@@ -960,6 +974,7 @@ package sod
 //@ ensures [C01 Get.readonly] FSk == old(FSk) && FSc == old(FSc)
 //@ modifies Ghost.ACQ_H, MapDom[string,*Schema]@db.schemas, MapVal[string,*Schema]@db.schemas, MapCard[string,*Schema]@db.schemas, Async.routineStarted, Object.content@in, MapDom[string,*objectMap]@db.cache.m, MapVal[string,*objectMap]@db.cache.m, MapCard[string,*objectMap]@db.cache.m, MapDom[string,Object], MapVal[string,Object], MapCard[string,Object]
 //@ allocates Async.Enable, Async.Threshold, Async.Timeout, Elem[*indexedField], Elem[string], MapCard[string,*fieldIndex], MapCard[string,uint64], MapCard[uint64,*indexedField], MapCard[uint64,string], MapDom[string,*fieldIndex], MapDom[string,uint64], MapDom[uint64,*indexedField], MapDom[uint64,string], MapVal[string,*fieldIndex], MapVal[string,uint64], MapVal[uint64,*indexedField], MapVal[uint64,string], Object.uuid, Schema.AsyncWrites, Schema.Cache, Schema.Compress, Schema.Extension, Schema.Fields, Schema.ObjectIndex, Schema.coherent, Schema.db, Schema.object, Schema.transformers, fieldIndex.Cast, fieldIndex.Constraints.Index, fieldIndex.Constraints.Lower, fieldIndex.Constraints.Unique, fieldIndex.Constraints.Upper, fieldIndex.Index, fieldIndex.Name, fieldIndex.nameSplit, fieldIndex.objectIds, fieldIndex.pos, indexedField.ObjectId, indexedField.Value, objIndex.Fields, objIndex.ObjectIds, objIndex.i, objIndex.otype, objIndex.uuids, objIndex.ver, objectMap.RWMutex, objectMap.m
+//@ allocates Elem[interface{}]
 
 //@ func (*DB).GetByUUID
 //@ serves C01 C08 C09 C12
@@ -972,6 +987,7 @@ package sod
 //@ ensures [C01 GetByUUID.wf] wfDB(db)
 //@ modifies Ghost.ACQ_H, Object.uuid@in, MapDom[string,*Schema]@db.schemas, MapVal[string,*Schema]@db.schemas, MapCard[string,*Schema]@db.schemas, Async.routineStarted, Object.content@in, MapDom[string,*objectMap]@db.cache.m, MapVal[string,*objectMap]@db.cache.m, MapCard[string,*objectMap]@db.cache.m, MapDom[string,Object], MapVal[string,Object], MapCard[string,Object]
 //@ allocates Async.Enable, Async.Threshold, Async.Timeout, Elem[*indexedField], Elem[string], MapCard[string,*fieldIndex], MapCard[string,uint64], MapCard[uint64,*indexedField], MapCard[uint64,string], MapDom[string,*fieldIndex], MapDom[string,uint64], MapDom[uint64,*indexedField], MapDom[uint64,string], MapVal[string,*fieldIndex], MapVal[string,uint64], MapVal[uint64,*indexedField], MapVal[uint64,string], Schema.AsyncWrites, Schema.Cache, Schema.Compress, Schema.Extension, Schema.Fields, Schema.ObjectIndex, Schema.coherent, Schema.db, Schema.object, Schema.transformers, fieldIndex.Cast, fieldIndex.Constraints.Index, fieldIndex.Constraints.Lower, fieldIndex.Constraints.Unique, fieldIndex.Constraints.Upper, fieldIndex.Index, fieldIndex.Name, fieldIndex.nameSplit, fieldIndex.objectIds, fieldIndex.pos, indexedField.ObjectId, indexedField.Value, objIndex.Fields, objIndex.ObjectIds, objIndex.i, objIndex.otype, objIndex.uuids, objIndex.ver, objectMap.RWMutex, objectMap.m
+//@ allocates Elem[interface{}]
 
 //@ func (*DB).getByUUID
 //@ serves C01 C08 C09 C12
@@ -986,6 +1002,7 @@ package sod
 //@ ensures [C01 getByUUID.others] db.schemas == old(db.schemas) && forallk(t, string, imp(t != T, has(db.schemas, t) == old(has(db.schemas, t)) && db.schemas[t] == old(db.schemas[t]))) && imp(old(has(db.schemas, T)), has(db.schemas, T) && db.schemas[T] == old(db.schemas[T]))
 //@ modifies Object.uuid@in, MapDom[string,*Schema]@db.schemas, MapVal[string,*Schema]@db.schemas, MapCard[string,*Schema]@db.schemas, Async.routineStarted, Object.content@in, MapDom[string,*objectMap]@db.cache.m, MapVal[string,*objectMap]@db.cache.m, MapCard[string,*objectMap]@db.cache.m, MapDom[string,Object], MapVal[string,Object], MapCard[string,Object]
 //@ allocates Async.Enable, Async.Threshold, Async.Timeout, Elem[*indexedField], Elem[string], MapCard[string,*fieldIndex], MapCard[string,uint64], MapCard[uint64,*indexedField], MapCard[uint64,string], MapDom[string,*fieldIndex], MapDom[string,uint64], MapDom[uint64,*indexedField], MapDom[uint64,string], MapVal[string,*fieldIndex], MapVal[string,uint64], MapVal[uint64,*indexedField], MapVal[uint64,string], Schema.AsyncWrites, Schema.Cache, Schema.Compress, Schema.Extension, Schema.Fields, Schema.ObjectIndex, Schema.coherent, Schema.db, Schema.object, Schema.transformers, fieldIndex.Cast, fieldIndex.Constraints.Index, fieldIndex.Constraints.Lower, fieldIndex.Constraints.Unique, fieldIndex.Constraints.Upper, fieldIndex.Index, fieldIndex.Name, fieldIndex.nameSplit, fieldIndex.objectIds, fieldIndex.pos, indexedField.ObjectId, indexedField.Value, objIndex.Fields, objIndex.ObjectIds, objIndex.i, objIndex.otype, objIndex.uuids, objIndex.ver, objectMap.RWMutex, objectMap.m
+//@ allocates Elem[interface{}]
 
 //@ func (*DB).Exist
 //@ serves C01 C08 C09 C10 C12
@@ -997,6 +1014,7 @@ package sod
 //@ ensures [C01 Exist.readonly] FSk == old(FSk) && FSc == old(FSc)
 //@ modifies Ghost.ACQ_H, MapDom[string,*Schema]@db.schemas, MapVal[string,*Schema]@db.schemas, MapCard[string,*Schema]@db.schemas, Async.routineStarted
 //@ allocates Async.Enable, Async.Threshold, Async.Timeout, Elem[*indexedField], Elem[string], MapCard[string,*fieldIndex], MapCard[string,uint64], MapCard[uint64,*indexedField], MapCard[uint64,string], MapDom[string,*fieldIndex], MapDom[string,uint64], MapDom[uint64,*indexedField], MapDom[uint64,string], MapVal[string,*fieldIndex], MapVal[string,uint64], MapVal[uint64,*indexedField], MapVal[uint64,string], Schema.AsyncWrites, Schema.Cache, Schema.Compress, Schema.Extension, Schema.Fields, Schema.ObjectIndex, Schema.coherent, Schema.db, Schema.object, Schema.transformers, fieldIndex.Cast, fieldIndex.Constraints.Index, fieldIndex.Constraints.Lower, fieldIndex.Constraints.Unique, fieldIndex.Constraints.Upper, fieldIndex.Index, fieldIndex.Name, fieldIndex.nameSplit, fieldIndex.objectIds, fieldIndex.pos, indexedField.ObjectId, indexedField.Value, objIndex.Fields, objIndex.ObjectIds, objIndex.i, objIndex.otype, objIndex.uuids, objIndex.ver
+//@ allocates Elem[interface{}]
 
 //@ func (*DB).InsertOrUpdate
 //@ serves C01 C04 C06 C08 C09 C10 C12 C15
@@ -1018,6 +1036,7 @@ package sod
 //@ ensures [C01 IOU.wf] imp(!isStorage(err), wfDB(db))
 //@ modifies Ghost.ACQ_H, Object.content@o, Object.stage@o, Object.uuid@o, Ghost.FSk, Ghost.FSc, Async.routineStarted, MapDom[string,*Schema]@db.schemas, MapVal[string,*Schema]@db.schemas, MapCard[string,*Schema]@db.schemas, MapDom[string,*objectMap], MapVal[string,*objectMap], MapCard[string,*objectMap], MapDom[string,Object], MapVal[string,Object], MapCard[string,Object], objIndex.i, objIndex.ver, MapDom[string,uint64], MapVal[string,uint64], MapCard[string,uint64], MapDom[uint64,string], MapVal[uint64,string], MapCard[uint64,string], fieldIndex.Index, fieldIndex.pos, MapDom[uint64,*indexedField], MapVal[uint64,*indexedField], MapCard[uint64,*indexedField], Elem[*indexedField]
 //@ allocates Async.Enable, Async.Threshold, Async.Timeout, Elem[interface{}], Elem[string], Elem[uint8], MapCard[string,*fieldIndex], MapDom[string,*fieldIndex], MapVal[string,*fieldIndex], Schema.AsyncWrites, Schema.Cache, Schema.Compress, Schema.Extension, Schema.Fields, Schema.ObjectIndex, Schema.coherent, Schema.db, Schema.object, Schema.transformers, fieldIndex.Cast, fieldIndex.Constraints.Index, fieldIndex.Constraints.Lower, fieldIndex.Constraints.Unique, fieldIndex.Constraints.Upper, fieldIndex.Name, fieldIndex.nameSplit, fieldIndex.objectIds, indexedField.ObjectId, indexedField.Value, objIndex.Fields, objIndex.ObjectIds, objIndex.otype, objIndex.uuids, objectMap.RWMutex, objectMap.m
+//@ allocates Constraints.Index, Constraints.Lower, Constraints.Unique, Constraints.Upper
 
 //@ func (*DB).Delete
 //@ serves C01 C04 C05 C08 C09 C10 C12
@@ -1035,6 +1054,7 @@ package sod
 //@ ensures [C01 Del.wf] imp(!isStorage(lastErr), collsOK(db))
 //@ modifies Ghost.ACQ_H, Ghost.FSk, Ghost.FSc, Async.routineStarted, MapDom[string,*Schema]@db.schemas, MapVal[string,*Schema]@db.schemas, MapCard[string,*Schema]@db.schemas, MapDom[string,Object], MapCard[string,Object], objIndex.ver, MapDom[string,uint64], MapVal[string,uint64], MapCard[string,uint64], MapDom[uint64,string], MapVal[uint64,string], MapCard[uint64,string], fieldIndex.Index, fieldIndex.pos, MapDom[uint64,*indexedField], MapVal[uint64,*indexedField], MapCard[uint64,*indexedField], Elem[*indexedField]
 //@ allocates Async.Enable, Async.Threshold, Async.Timeout, Elem[string], Elem[uint8], MapCard[string,*fieldIndex], MapDom[string,*fieldIndex], MapVal[string,*fieldIndex], Schema.AsyncWrites, Schema.Cache, Schema.Compress, Schema.Extension, Schema.Fields, Schema.ObjectIndex, Schema.coherent, Schema.db, Schema.object, Schema.transformers, fieldIndex.Cast, fieldIndex.Constraints.Index, fieldIndex.Constraints.Lower, fieldIndex.Constraints.Unique, fieldIndex.Constraints.Upper, fieldIndex.Name, fieldIndex.nameSplit, fieldIndex.objectIds, indexedField.ObjectId, indexedField.Value, objIndex.Fields, objIndex.ObjectIds, objIndex.i, objIndex.otype, objIndex.uuids
+//@ allocates Elem[interface{}]
 
 //@ func (*DB).Commit
 //@ serves C04 C08 C09
@@ -1098,6 +1118,7 @@ package sod
 //@ modifies iterator.i@it, MapDom[string,*Schema]@it.db.schemas, MapVal[string,*Schema]@it.db.schemas, MapCard[string,*Schema]@it.db.schemas, Async.routineStarted, MapDom[string,*objectMap]@it.db.cache.m, MapVal[string,*objectMap]@it.db.cache.m, MapCard[string,*objectMap]@it.db.cache.m, MapDom[string,Object], MapVal[string,Object], MapCard[string,Object]
 //@ allocates Object.content, Object.uuid, Object.stage, objectMap.m, objectMap.RWMutex
 //@ allocates Async.Enable, Async.Threshold, Async.Timeout, Elem[*indexedField], Elem[string], MapCard[string,*fieldIndex], MapCard[string,uint64], MapCard[uint64,*indexedField], MapCard[uint64,string], MapDom[string,*fieldIndex], MapDom[string,uint64], MapDom[uint64,*indexedField], MapDom[uint64,string], MapVal[string,*fieldIndex], MapVal[string,uint64], MapVal[uint64,*indexedField], MapVal[uint64,string], Schema.AsyncWrites, Schema.Cache, Schema.Compress, Schema.Extension, Schema.Fields, Schema.ObjectIndex, Schema.coherent, Schema.db, Schema.object, Schema.transformers, fieldIndex.Cast, fieldIndex.Constraints.Index, fieldIndex.Constraints.Lower, fieldIndex.Constraints.Unique, fieldIndex.Constraints.Upper, fieldIndex.Index, fieldIndex.Name, fieldIndex.nameSplit, fieldIndex.objectIds, fieldIndex.pos, indexedField.ObjectId, indexedField.Value, objIndex.Fields, objIndex.ObjectIds, objIndex.i, objIndex.otype, objIndex.uuids, objIndex.ver
+//@ allocates Elem[interface{}]
 
 // ---- searches: result handling (C13) ---------------------------------------------
 
@@ -1182,6 +1203,7 @@ package sod
 //@ modifies Search.limit@s, iterator.i, iterator.reverse, MapDom[string,*Schema]@s.db.schemas, MapVal[string,*Schema]@s.db.schemas, MapCard[string,*Schema]@s.db.schemas, Async.routineStarted, MapDom[string,*objectMap], MapVal[string,*objectMap], MapCard[string,*objectMap], MapDom[string,Object], MapVal[string,Object], MapCard[string,Object]
 //@ allocates Elem[string], Elem[Object], iterator.db, iterator.t, iterator.i, iterator.reverse, iterator.uuids, iterator.tdyn, Object.content, Object.uuid, Object.stage, objectMap.m, objectMap.RWMutex
 //@ allocates Async.Enable, Async.Threshold, Async.Timeout, Elem[*indexedField], MapCard[string,*fieldIndex], MapCard[string,uint64], MapCard[uint64,*indexedField], MapCard[uint64,string], MapDom[string,*fieldIndex], MapDom[string,uint64], MapDom[uint64,*indexedField], MapDom[uint64,string], MapVal[string,*fieldIndex], MapVal[string,uint64], MapVal[uint64,*indexedField], MapVal[uint64,string], Schema.AsyncWrites, Schema.Cache, Schema.Compress, Schema.Extension, Schema.Fields, Schema.ObjectIndex, Schema.coherent, Schema.db, Schema.object, Schema.transformers, fieldIndex.Cast, fieldIndex.Constraints.Index, fieldIndex.Constraints.Lower, fieldIndex.Constraints.Unique, fieldIndex.Constraints.Upper, fieldIndex.Index, fieldIndex.Name, fieldIndex.nameSplit, fieldIndex.objectIds, fieldIndex.pos, indexedField.ObjectId, indexedField.Value, objIndex.Fields, objIndex.ObjectIds, objIndex.i, objIndex.otype, objIndex.uuids, objIndex.ver
+//@ allocates Elem[interface{}]
 
 //@ func (*Search).one
 //@ serves C01 C08 C09 C13
@@ -1198,6 +1220,8 @@ package sod
 //@ ensures [C17 one.readonly] FSk == old(FSk) && FSc == old(FSc)
 //@ modifies Search.limit@s, iterator.i, iterator.reverse, MapDom[string,*Schema]@s.db.schemas, MapVal[string,*Schema]@s.db.schemas, MapCard[string,*Schema]@s.db.schemas, Async.routineStarted, MapDom[string,*objectMap], MapVal[string,*objectMap], MapCard[string,*objectMap], MapDom[string,Object], MapVal[string,Object], MapCard[string,Object]
 //@ allocates Elem[Object], Elem[string], Object.content, Object.stage, Object.uuid, iterator.db, iterator.t, iterator.tdyn, iterator.uuids, objectMap.RWMutex, objectMap.m
+//@ allocates Async.Enable, Async.Threshold, Async.Timeout, Elem[*indexedField], MapCard[string,*fieldIndex], MapCard[string,uint64], MapCard[uint64,*indexedField], MapCard[uint64,string], MapDom[string,*fieldIndex], MapDom[string,uint64], MapDom[uint64,*indexedField], MapDom[uint64,string], MapVal[string,*fieldIndex], MapVal[string,uint64], MapVal[uint64,*indexedField], MapVal[uint64,string], Schema.AsyncWrites, Schema.Cache, Schema.Compress, Schema.Extension, Schema.Fields, Schema.ObjectIndex, Schema.coherent, Schema.db, Schema.object, Schema.transformers, fieldIndex.Cast, fieldIndex.Constraints.Index, fieldIndex.Constraints.Lower, fieldIndex.Constraints.Unique, fieldIndex.Constraints.Upper, fieldIndex.Index, fieldIndex.Name, fieldIndex.nameSplit, fieldIndex.objectIds, fieldIndex.pos, indexedField.ObjectId, indexedField.Value, objIndex.Fields, objIndex.ObjectIds, objIndex.i, objIndex.otype, objIndex.uuids, objIndex.ver
+//@ allocates Elem[interface{}]
 
 //@ func (*Search).Collect
 //@ serves C01 C08 C09 C13 C20
@@ -1214,6 +1238,7 @@ package sod
 //@ modifies Ghost.ACQ_H, Search.limit@s, iterator.i, iterator.reverse, MapDom[string,*Schema]@s.db.schemas, MapVal[string,*Schema]@s.db.schemas, MapCard[string,*Schema]@s.db.schemas, Async.routineStarted, MapDom[string,*objectMap], MapVal[string,*objectMap], MapCard[string,*objectMap], MapDom[string,Object], MapVal[string,Object], MapCard[string,Object]
 //@ allocates Elem[Object], Elem[string], Object.content, Object.stage, Object.uuid, iterator.db, iterator.t, iterator.tdyn, iterator.uuids, objectMap.RWMutex, objectMap.m
 //@ allocates Async.Enable, Async.Threshold, Async.Timeout, Elem[*indexedField], MapCard[string,*fieldIndex], MapCard[string,uint64], MapCard[uint64,*indexedField], MapCard[uint64,string], MapDom[string,*fieldIndex], MapDom[string,uint64], MapDom[uint64,*indexedField], MapDom[uint64,string], MapVal[string,*fieldIndex], MapVal[string,uint64], MapVal[uint64,*indexedField], MapVal[uint64,string], Schema.AsyncWrites, Schema.Cache, Schema.Compress, Schema.Extension, Schema.Fields, Schema.ObjectIndex, Schema.coherent, Schema.db, Schema.object, Schema.transformers, fieldIndex.Cast, fieldIndex.Constraints.Index, fieldIndex.Constraints.Lower, fieldIndex.Constraints.Unique, fieldIndex.Constraints.Upper, fieldIndex.Index, fieldIndex.Name, fieldIndex.nameSplit, fieldIndex.objectIds, fieldIndex.pos, indexedField.ObjectId, indexedField.Value, objIndex.Fields, objIndex.ObjectIds, objIndex.i, objIndex.otype, objIndex.uuids, objIndex.ver
+//@ allocates Elem[interface{}]
 
 //@ func (*Search).One
 //@ serves C01 C08 C09 C13
@@ -1227,8 +1252,11 @@ package sod
 //@ ensures [C13 One.first] imp(err == nil && has(db.schemas, T) && db.schemas[T].coherent, o != nil && o.uuid == ite(has(db.schemas[T].ObjectIndex.ObjectIds, s.fields[ite(s.reverse, m-1, 0)].ObjectId), db.schemas[T].ObjectIndex.ObjectIds[s.fields[ite(s.reverse, m-1, 0)].ObjectId], ""))
 //@ modifies Ghost.ACQ_H, Search.limit@s, iterator.i, iterator.reverse, MapDom[string,*Schema]@s.db.schemas, MapVal[string,*Schema]@s.db.schemas, MapCard[string,*Schema]@s.db.schemas, Async.routineStarted, MapDom[string,*objectMap], MapVal[string,*objectMap], MapCard[string,*objectMap], MapDom[string,Object], MapVal[string,Object], MapCard[string,Object]
 //@ allocates Elem[Object], Elem[string], Object.content, Object.stage, Object.uuid, iterator.db, iterator.t, iterator.tdyn, iterator.uuids, objectMap.RWMutex, objectMap.m
+//@ allocates Async.Enable, Async.Threshold, Async.Timeout, Elem[*indexedField], MapCard[string,*fieldIndex], MapCard[string,uint64], MapCard[uint64,*indexedField], MapCard[uint64,string], MapDom[string,*fieldIndex], MapDom[string,uint64], MapDom[uint64,*indexedField], MapDom[uint64,string], MapVal[string,*fieldIndex], MapVal[string,uint64], MapVal[uint64,*indexedField], MapVal[uint64,string], Schema.AsyncWrites, Schema.Cache, Schema.Compress, Schema.Extension, Schema.Fields, Schema.ObjectIndex, Schema.coherent, Schema.db, Schema.object, Schema.transformers, fieldIndex.Cast, fieldIndex.Constraints.Index, fieldIndex.Constraints.Lower, fieldIndex.Constraints.Unique, fieldIndex.Constraints.Upper, fieldIndex.Index, fieldIndex.Name, fieldIndex.nameSplit, fieldIndex.objectIds, fieldIndex.pos, indexedField.ObjectId, indexedField.Value, objIndex.Fields, objIndex.ObjectIds, objIndex.i, objIndex.otype, objIndex.uuids, objIndex.ver
+//@ allocates Elem[interface{}]
 
 //@ func (*DB).iterator
+//@ dead return 2 "a well-formed schema has an object index (wfSchema)"
 //@ serves C01 C08 C09 C12
 //@ requires [wf] wfDBbase(db) && of != nil
 //@ requires [C08 locked] H >= 1
@@ -1278,6 +1306,7 @@ package sod
 //@ modifies iterator.i, MapDom[string,*Schema]@db.schemas, MapVal[string,*Schema]@db.schemas, MapCard[string,*Schema]@db.schemas, Async.routineStarted, MapDom[string,*objectMap], MapVal[string,*objectMap], MapCard[string,*objectMap], MapDom[string,Object], MapVal[string,Object], MapCard[string,Object]
 //@ allocates Elem[string], Elem[Object], iterator.db, iterator.t, iterator.i, iterator.reverse, iterator.uuids, iterator.tdyn, Object.content, Object.uuid, Object.stage, objectMap.m, objectMap.RWMutex
 //@ allocates Async.Enable, Async.Threshold, Async.Timeout, Elem[*indexedField], MapCard[string,*fieldIndex], MapCard[string,uint64], MapCard[uint64,*indexedField], MapCard[uint64,string], MapDom[string,*fieldIndex], MapDom[string,uint64], MapDom[uint64,*indexedField], MapDom[uint64,string], MapVal[string,*fieldIndex], MapVal[string,uint64], MapVal[uint64,*indexedField], MapVal[uint64,string], Schema.AsyncWrites, Schema.Cache, Schema.Compress, Schema.Extension, Schema.Fields, Schema.ObjectIndex, Schema.coherent, Schema.db, Schema.object, Schema.transformers, fieldIndex.Cast, fieldIndex.Constraints.Index, fieldIndex.Constraints.Lower, fieldIndex.Constraints.Unique, fieldIndex.Constraints.Upper, fieldIndex.Index, fieldIndex.Name, fieldIndex.nameSplit, fieldIndex.objectIds, fieldIndex.pos, indexedField.ObjectId, indexedField.Value, objIndex.Fields, objIndex.ObjectIds, objIndex.i, objIndex.otype, objIndex.uuids, objIndex.ver
+//@ allocates Elem[interface{}]
 
 //@ func Assign
 //@ serves C01 C19
@@ -1328,6 +1357,7 @@ package sod
 //@ modifies Ghost.ACQ_H, iterator.i, MapDom[string,*Schema]@db.schemas, MapVal[string,*Schema]@db.schemas, MapCard[string,*Schema]@db.schemas, Async.routineStarted, MapDom[string,*objectMap], MapVal[string,*objectMap], MapCard[string,*objectMap], MapDom[string,Object], MapVal[string,Object], MapCard[string,Object]
 //@ allocates Elem[Object], Elem[string], Object.content, Object.stage, Object.uuid, iterator.db, iterator.reverse, iterator.t, iterator.tdyn, iterator.uuids, objectMap.RWMutex, objectMap.m
 //@ allocates Async.Enable, Async.Threshold, Async.Timeout, Elem[*indexedField], MapCard[string,*fieldIndex], MapCard[string,uint64], MapCard[uint64,*indexedField], MapCard[uint64,string], MapDom[string,*fieldIndex], MapDom[string,uint64], MapDom[uint64,*indexedField], MapDom[uint64,string], MapVal[string,*fieldIndex], MapVal[string,uint64], MapVal[uint64,*indexedField], MapVal[uint64,string], Schema.AsyncWrites, Schema.Cache, Schema.Compress, Schema.Extension, Schema.Fields, Schema.ObjectIndex, Schema.coherent, Schema.db, Schema.object, Schema.transformers, fieldIndex.Cast, fieldIndex.Constraints.Index, fieldIndex.Constraints.Lower, fieldIndex.Constraints.Unique, fieldIndex.Constraints.Upper, fieldIndex.Index, fieldIndex.Name, fieldIndex.nameSplit, fieldIndex.objectIds, fieldIndex.pos, indexedField.ObjectId, indexedField.Value, objIndex.Fields, objIndex.ObjectIds, objIndex.i, objIndex.otype, objIndex.uuids, objIndex.ver
+//@ allocates Elem[interface{}]
 
 //@ func (*DB).AssignAll
 //@ serves C01 C08 C09
@@ -1339,6 +1369,7 @@ package sod
 //@ modifies Ghost.ACQ_H, iterator.i, MapDom[string,*Schema]@db.schemas, MapVal[string,*Schema]@db.schemas, MapCard[string,*Schema]@db.schemas, Async.routineStarted, MapDom[string,*objectMap], MapVal[string,*objectMap], MapCard[string,*objectMap], MapDom[string,Object], MapVal[string,Object], MapCard[string,Object]
 //@ allocates Elem[Object], Elem[string], Object.content, Object.stage, Object.uuid, iterator.db, iterator.reverse, iterator.t, iterator.tdyn, iterator.uuids, objectMap.RWMutex, objectMap.m
 //@ allocates Async.Enable, Async.Threshold, Async.Timeout, Elem[*indexedField], MapCard[string,*fieldIndex], MapCard[string,uint64], MapCard[uint64,*indexedField], MapCard[uint64,string], MapDom[string,*fieldIndex], MapDom[string,uint64], MapDom[uint64,*indexedField], MapDom[uint64,string], MapVal[string,*fieldIndex], MapVal[string,uint64], MapVal[uint64,*indexedField], MapVal[uint64,string], Schema.AsyncWrites, Schema.Cache, Schema.Compress, Schema.Extension, Schema.Fields, Schema.ObjectIndex, Schema.coherent, Schema.db, Schema.object, Schema.transformers, fieldIndex.Cast, fieldIndex.Constraints.Index, fieldIndex.Constraints.Lower, fieldIndex.Constraints.Unique, fieldIndex.Constraints.Upper, fieldIndex.Index, fieldIndex.Name, fieldIndex.nameSplit, fieldIndex.objectIds, fieldIndex.pos, indexedField.ObjectId, indexedField.Value, objIndex.Fields, objIndex.ObjectIds, objIndex.i, objIndex.otype, objIndex.uuids, objIndex.ver
+//@ allocates Elem[interface{}]
 
 // ---- batch insertion (C07) -------------------------------------------------------
 
@@ -1406,6 +1437,7 @@ package sod
 //@ loop 2 invariant [views] imp(rangeindex == -1 && old(has(db.schemas, T)), viewsSame(db, schema))
 //@ modifies Ghost.ACQ_H, Object.content, Object.stage, Object.uuid, Ghost.FSk, Ghost.FSc, Async.routineStarted, MapDom[string,*Schema]@db.schemas, MapVal[string,*Schema]@db.schemas, MapCard[string,*Schema]@db.schemas, MapDom[string,*objectMap], MapVal[string,*objectMap], MapCard[string,*objectMap], MapDom[string,Object], MapVal[string,Object], MapCard[string,Object], objIndex.i, objIndex.ver, MapDom[string,uint64], MapVal[string,uint64], MapCard[string,uint64], MapDom[uint64,string], MapVal[uint64,string], MapCard[uint64,string], fieldIndex.Index, fieldIndex.pos, MapDom[uint64,*indexedField], MapVal[uint64,*indexedField], MapCard[uint64,*indexedField], Elem[*indexedField]
 //@ allocates Async.Enable, Async.Threshold, Async.Timeout, Elem[interface{}], Elem[string], Elem[uint8], MapCard[string,*fieldIndex], MapDom[string,*fieldIndex], MapVal[string,*fieldIndex], Schema.AsyncWrites, Schema.Cache, Schema.Compress, Schema.Extension, Schema.Fields, Schema.ObjectIndex, Schema.coherent, Schema.db, Schema.object, Schema.transformers, fieldIndex.Cast, fieldIndex.Constraints.Index, fieldIndex.Constraints.Lower, fieldIndex.Constraints.Unique, fieldIndex.Constraints.Upper, fieldIndex.Name, fieldIndex.nameSplit, fieldIndex.objectIds, indexedField.ObjectId, indexedField.Value, objIndex.Fields, objIndex.ObjectIds, objIndex.base, objIndex.otype, objIndex.uuids, objectMap.RWMutex, objectMap.m
+//@ allocates Constraints.Index, Constraints.Lower, Constraints.Unique, Constraints.Upper
 
 // ---- flushing (C10) -------------------------------------------------------------------
 
@@ -1422,6 +1454,7 @@ package sod
 //@ modifies Ghost.FSk, Ghost.FSc, MapDom[string,*Schema]@db.schemas, MapVal[string,*Schema]@db.schemas, MapCard[string,*Schema]@db.schemas, Async.routineStarted
 //@ allocates Elem[uint8]
 //@ allocates Async.Enable, Async.Threshold, Async.Timeout, Elem[*indexedField], Elem[string], MapCard[string,*fieldIndex], MapCard[string,uint64], MapCard[uint64,*indexedField], MapCard[uint64,string], MapDom[string,*fieldIndex], MapDom[string,uint64], MapDom[uint64,*indexedField], MapDom[uint64,string], MapVal[string,*fieldIndex], MapVal[string,uint64], MapVal[uint64,*indexedField], MapVal[uint64,string], Schema.AsyncWrites, Schema.Cache, Schema.Compress, Schema.Extension, Schema.Fields, Schema.ObjectIndex, Schema.coherent, Schema.db, Schema.object, Schema.transformers, fieldIndex.Cast, fieldIndex.Constraints.Index, fieldIndex.Constraints.Lower, fieldIndex.Constraints.Unique, fieldIndex.Constraints.Upper, fieldIndex.Index, fieldIndex.Name, fieldIndex.nameSplit, fieldIndex.objectIds, fieldIndex.pos, indexedField.ObjectId, indexedField.Value, objIndex.Fields, objIndex.ObjectIds, objIndex.i, objIndex.otype, objIndex.uuids, objIndex.ver
+//@ allocates Elem[interface{}]
 
 // The two flush loops (objectMap.flush, objectStore.flush) iterate over a map while deleting from it and write
 // one file per object: their contracts are assumed for now (DESIGN.md C10), the callers are verified against them.
@@ -1560,6 +1593,7 @@ package sod
 //@ pure
 
 //@ func (FieldDescMap).FieldsCompatibleWith
+//@ dead return 4 "FieldEqual is symmetric: the first loop already compared every common path"
 //@ serves C17 C11
 //@ ensures [C17 fcw.iff] (err == nil) == sameFields(m, target)
 //@ ensures [C17 fcw.class] imp(err != nil, (errIs(err, ErrUnkownField) || errIs(err, ErrFieldDescModif)) && !isStorage(err) && !errIs(err, ErrIndexCorrupted))
@@ -1570,6 +1604,7 @@ package sod
 //@ allocates Elem[interface{}], FieldDescriptor.Path, FieldDescriptor.Type, FieldDescriptor.Constraints
 
 //@ func (FieldDescMap).CompatibleWith
+//@ dead return 4 "DeepEqual is symmetric: the first loop already compared every common path"
 //@ serves C17
 //@ ensures [C17 cw.iff] (err == nil) == sameDescs(m, target)
 //@ ensures [C17 cw.class] imp(err != nil, (errIs(err, ErrUnkownField) || errIs(err, ErrFieldDescModif)) && !isStorage(err))
@@ -1672,6 +1707,7 @@ package sod
 // ---- unindexed search: full scan (C02, C12) --------------------------------------------------
 
 //@ func (*DB).searchAll
+//@ dead return 2 "db.search has already loaded the schema (precondition has(db.schemas, T))"
 //@ serves C02 C08 C09 C12 C19 C20
 //@ requires [wf] wfDB(db) && o != nil && has(db.schemas, stypeOf(dyntype(o)))
 //@ requires [C08 locked] H >= 1
@@ -1728,6 +1764,7 @@ package sod
 //@ loop 2 invariant [f-complete] imp(sch.coherent, forall(j, 0, p, imp(letin(u, iter.uuids[j], opmatch(operator, norm(proj(old(value(db, sch, u)), field)), k)), 0 <= dst[j] && dst[j] < len(f) && f[dst[j]].ObjectId == idx.uuids[iter.uuids[j]])))
 //@ modifies iterator.i, MapDom[string,*Schema]@db.schemas, MapVal[string,*Schema]@db.schemas, MapCard[string,*Schema]@db.schemas, Async.routineStarted, MapDom[string,*objectMap]@db.cache.m, MapVal[string,*objectMap]@db.cache.m, MapCard[string,*objectMap]@db.cache.m, MapDom[string,Object], MapVal[string,Object], MapCard[string,Object]
 //@ allocates Elem[string], Elem[*indexedField], Elem[interface{}], indexedField.Value, indexedField.ObjectId, iterator.db, iterator.t, iterator.i, iterator.reverse, iterator.uuids, iterator.tdyn, Search.db, Search.object, Search.fields, Search.limit, Search.reverse, Search.err, Object.content, Object.uuid, Object.stage, objectMap.m, objectMap.RWMutex
+//@ allocates Async.Enable, Async.Threshold, Async.Timeout, MapCard[string,*fieldIndex], MapCard[string,uint64], MapCard[uint64,*indexedField], MapCard[uint64,string], MapDom[string,*fieldIndex], MapDom[string,uint64], MapDom[uint64,*indexedField], MapDom[uint64,string], MapVal[string,*fieldIndex], MapVal[string,uint64], MapVal[uint64,*indexedField], MapVal[uint64,string], Schema.AsyncWrites, Schema.Cache, Schema.Compress, Schema.Extension, Schema.Fields, Schema.ObjectIndex, Schema.coherent, Schema.db, Schema.object, Schema.transformers, fieldIndex.Cast, fieldIndex.Constraints.Index, fieldIndex.Constraints.Lower, fieldIndex.Constraints.Unique, fieldIndex.Constraints.Upper, fieldIndex.Index, fieldIndex.Name, fieldIndex.nameSplit, fieldIndex.objectIds, fieldIndex.pos, objIndex.Fields, objIndex.ObjectIds, objIndex.i, objIndex.otype, objIndex.uuids, objIndex.ver
 
 // ---- DB.search: indexed or full scan, one specification (C02, C12, C16) ------------------------
 
